@@ -312,6 +312,29 @@ func (d *driver) runPhase(spec PhaseSpec, capS float64) *phaseAgg {
 		w = int(total)
 	}
 	var wg sync.WaitGroup
+	if spec.Cold {
+		// one process per run, w at a time
+		slots := make(chan int, w)
+		for k := 0; k < w; k++ {
+			slots <- k
+		}
+		for i := uint64(0); i < total; i++ {
+			if time.Now().After(deadline) {
+				agg.Truncated = true
+				break
+			}
+			wg.Add(1)
+			slot := <-slots
+			go func(i uint64, slot int) {
+				defer wg.Done()
+				defer func() { slots <- slot }()
+				d.runChunk(spec, slot, i, i+1, deadline, agg)
+			}(i, slot)
+		}
+		wg.Wait()
+		agg.WallS = time.Since(t0).Seconds()
+		return agg
+	}
 	per := (total + uint64(w) - 1) / uint64(w)
 	for wi := 0; wi < w; wi++ {
 		from := uint64(wi) * per
@@ -583,6 +606,9 @@ func checkMain(args []string) int {
 	det := d.determinismSelfTest()
 
 	for _, spec := range c.Phases(env.Tier) {
+		if only := os.Getenv("VORESIM_PHASES"); only != "" && !strings.Contains(","+only+",", ","+spec.Name+",") {
+			continue // developer switch: run some phases only
+		}
 		if spec.Race && env.RaceBin == "" {
 			d.infra("phase %s needs the race binary", spec.Name)
 			continue
